@@ -1,25 +1,28 @@
 (* C17 — hand-written part of the model (Tie B): the loops and the array adaptors, which the
    expression translator does not cover.  The index arithmetic itself (flatten / reshape /
    longIndex / coordsOf / longProduct / iterator operators) is GENERATED into gen/GenIdx.v from
-   the current sources on every run and is what the theorems in ProofsIdx.v are about. *)
+   the current sources on every run and is what the theorems in ProofsIdx.v are about.
+   Definitions only; proofs are in ProofsIdx.v / ProofsArr.v. *)
 From Coq Require Import ZArith List Bool Lia.
 From Common Require Import CxxSem.
 From C17.gen Require Import GenIdx.
+From C17 Require Import Checked.
 Import ListNotations.
 Local Open Scope Z_scope.
 
 (* integer range [lo, hi) in increasing order: the C++ "for (int i = lo; i < hi; i++)" *)
 Definition zrange (lo hi : Z) : list Z := map (fun k => lo + Z.of_nat k) (seq 0 (Z.to_nat (hi - lo))).
 
-(* array3D::for_each(lower, upper, f): z outermost, x innermost *)
+(* array3D::for_each(lower, upper, f): z outermost, x innermost; the list of functor arguments *)
 Definition for_each (lo hi : vec3 IZ) : list (vec3 IZ) :=
   flat_map (fun z => flat_map (fun y => map (fun x => mk_vec3 IZ x y z)
                                             (zrange (vec3_x lo) (vec3_x hi)))
                               (zrange (vec3_y lo) (vec3_y hi)))
            (zrange (vec3_z lo) (vec3_z hi)).
 
-(* iterating "for (it = seq.begin(); it != seq.end(); it++) visit(*it)" with the GENERATED
-   iterator operators; fuel bounds the number of steps, None = fuel exhausted *)
+(* iterating "for (it = seq.begin(); it != seq.end(); it++) visit( *it )" with the GENERATED
+   iterator operators (operator++(int) is the one that mutates and returns *this);
+   fuel bounds the number of steps, None = fuel exhausted *)
 Fixpoint iterate3 (fuel : nat) (it e : multidim_index_iterator3 IZ) : option (list (vec3 IZ)) :=
   if multidim_index_iterator3_op_ne__multidim_index_iterator3 IZ it e then
     match fuel with
@@ -40,19 +43,53 @@ Fixpoint iterate2 (fuel : nat) (it e : multidim_index_iterator2 IZ) : option (li
     end
   else Some [].
 
+(* operator++() (prefix; the one a range-based for uses) is outside the translator's subset
+   ("mutating function returning a value"), so it is hand-modelled:
+     return multidim_index_iterator(dims.dimensions(), ++current_index);
+   result = (iterator after the call, returned copy) *)
+Definition preinc3 (it : multidim_index_iterator3 IZ) : multidim_index_iterator3 IZ * multidim_index_iterator3 IZ :=
+  let c := multidim_index_iterator3_current_index it + 1 in
+  (mk_multidim_index_iterator3 IZ (multidim_index_iterator3_dims it) c,
+   multidim_index_iterator3_mk__v3ul_ul IZ (multidim_index_sequence3_dimensions__ IZ (multidim_index_iterator3_dims it)) c).
+Definition preinc2 (it : multidim_index_iterator2 IZ) : multidim_index_iterator2 IZ * multidim_index_iterator2 IZ :=
+  let c := multidim_index_iterator2_current_index it + 1 in
+  (mk_multidim_index_iterator2 IZ (multidim_index_iterator2_dims it) c,
+   multidim_index_iterator2_mk__v2ul_ul IZ (multidim_index_sequence2_dimensions__ IZ (multidim_index_iterator2_dims it)) c).
+
+(* "for (auto c : seq) visit(c)"  ==  for (it = begin; it != end; ++it) visit( *it ) *)
+Fixpoint rangefor3 (fuel : nat) (it e : multidim_index_iterator3 IZ) : option (list (vec3 IZ)) :=
+  if multidim_index_iterator3_op_ne__multidim_index_iterator3 IZ it e then
+    match fuel with
+    | O => None
+    | Datatypes.S f => option_map (cons (multidim_index_iterator3_op_mul__ IZ it)) (rangefor3 f (fst (preinc3 it)) e)
+    end
+  else Some [].
+Fixpoint rangefor2 (fuel : nat) (it e : multidim_index_iterator2 IZ) : option (list (vec2 IZ)) :=
+  if multidim_index_iterator2_op_ne__multidim_index_iterator2 IZ it e then
+    match fuel with
+    | O => None
+    | Datatypes.S f => option_map (cons (multidim_index_iterator2_op_mul__ IZ it)) (rangefor2 f (fst (preinc2 it)) e)
+    end
+  else Some [].
+
 (* ---- ActualArray3D and the adaptors: an array is its extent and a total cell function *)
 Definition clampz (x lo hi : Z) : Z := Z.max lo (Z.min x hi).      (* max(lo, min(x, hi)) *)
 
-Record arr := { a_dims : vec3 IZ; a_get : vec3 IZ -> Z }.           (* any Array3D: size() and get() *)
+(* any Array3D<T>: size(), get(), numElements() *)
+Record arr := { a_dims : vec3 IZ; a_get : vec3 IZ -> Z; a_num : Z }.
 
-(* storage of an ActualArray3D: value[longIndex] *)
+(* storage of an ActualArray3D: value[linear index] *)
 Record actual := { ac_dims : vec3 IZ; ac_cells : Z -> Z }.
 
 Definition clampc (d c : vec3 IZ) : vec3 IZ :=
   mk_vec3 IZ (clampz (vec3_x c) 0 (vec3_x d - 1)) (clampz (vec3_y c) 0 (vec3_y d - 1))
           (clampz (vec3_z c) 0 (vec3_z d - 1)).
 
-(* ActualArray3D::get: clamp, then index with the same formula as longIndex *)
+(* ActualArray3D::indexOf and the index expression inside get(): the same formula as longIndex
+   (separate source text; tied by the differential harness) *)
+Definition actual_indexOf (a : actual) (c : vec3 IZ) : Z := array3D_longIndex__v3i_v3i IZ c (ac_dims a).
+
+(* ActualArray3D::get: where = max(0, min(_where, dims - 1)), then value[index(where)] *)
 Definition actual_get (a : actual) (c : vec3 IZ) : Z :=
   ac_cells a (array3D_longIndex__v3i_v3i IZ (clampc (ac_dims a) c) (ac_dims a)).
 
@@ -61,36 +98,97 @@ Definition actual_set (a : actual) (c : vec3 IZ) (v : Z) : actual :=
   let i := array3D_longIndex__v3i_v3i IZ c (ac_dims a) in
   {| ac_dims := ac_dims a; ac_cells := fun j => if j =? i then v else ac_cells a j |}.
 
-Definition as_arr (a : actual) : arr := {| a_dims := ac_dims a; a_get := actual_get a |}.
+(* ActualArray3D::clear(t): for_each(size(), set(idx, t)) *)
+Definition actual_clear (a : actual) (v : Z) : actual :=
+  fold_left (fun a c => actual_set a c v) (for_each (mk_vec3 IZ 0 0 0) (ac_dims a)) a.
 
-(* IndexShiftedArray3D::get: actual->get((where + size() + shift) % size()) — C++ % (truncating) *)
+(* a freshly constructed array (new T[n]: indeterminate cells, modelled by an arbitrary filler) *)
+Definition actual_new (d : vec3 IZ) (filler : Z) : actual := {| ac_dims := d; ac_cells := fun _ => filler |}.
+
+(* ActualArray3D::numElements: size_t(dims.x) * size_t(dims.y) * size_t(dims.z) *)
+Definition actual_num (a : actual) : Z := vec3_x (ac_dims a) * vec3_y (ac_dims a) * vec3_z (ac_dims a).
+
+Definition as_arr (a : actual) : arr := {| a_dims := ac_dims a; a_get := actual_get a; a_num := actual_num a |}.
+
+(* IndexShiftedArray3D::get: actual->get((where + size() + shift) % size()) — C++ % truncates *)
+Definition shift_coord (d shift w : vec3 IZ) : vec3 IZ :=
+  mk_vec3 IZ (Z.rem (vec3_x w + vec3_x d + vec3_x shift) (vec3_x d))
+             (Z.rem (vec3_y w + vec3_y d + vec3_y shift) (vec3_y d))
+             (Z.rem (vec3_z w + vec3_z d + vec3_z shift) (vec3_z d)).
 Definition shifted (a : arr) (shift : vec3 IZ) : arr :=
   {| a_dims := a_dims a;
-     a_get := fun w =>
-       let d := a_dims a in
-       a_get a (mk_vec3 IZ (Z.rem (vec3_x w + vec3_x d + vec3_x shift) (vec3_x d))
-                          (Z.rem (vec3_y w + vec3_y d + vec3_y shift) (vec3_y d))
-                          (Z.rem (vec3_z w + vec3_z d + vec3_z shift) (vec3_z d))) |}.
+     a_get := fun w => a_get a (shift_coord (a_dims a) shift w);
+     a_num := a_num a |}.
 
-(* SubBoxArray3D: size = clip.upper - clip.lower, get(where + clip.lower) *)
+(* SubBoxArray3D: size = clip.upper - clip.lower, get(where + clip.lower),
+   numElements = product of the size *)
 Definition subbox (a : arr) (lo hi : vec3 IZ) : arr :=
-  {| a_dims := mk_vec3 IZ (vec3_x hi - vec3_x lo) (vec3_y hi - vec3_y lo) (vec3_z hi - vec3_z lo);
-     a_get := fun w => a_get a (mk_vec3 IZ (vec3_x w + vec3_x lo) (vec3_y w + vec3_y lo) (vec3_z w + vec3_z lo)) |}.
+  let d := mk_vec3 IZ (vec3_x hi - vec3_x lo) (vec3_y hi - vec3_y lo) (vec3_z hi - vec3_z lo) in
+  {| a_dims := d;
+     a_get := fun w => a_get a (mk_vec3 IZ (vec3_x w + vec3_x lo) (vec3_y w + vec3_y lo) (vec3_z w + vec3_z lo));
+     a_num := vec3_x d * vec3_y d * vec3_z d |}.
 
-(* Array3DAccessor<in,out>: (out_t) actual->get(where), conversion as a function *)
+(* Array3DAccessor<in,out>: (out_t) actual->get(where); the conversion is a parameter *)
 Definition accessor (conv : Z -> Z) (a : arr) : arr :=
-  {| a_dims := a_dims a; a_get := fun w => conv (a_get a w) |}.
+  {| a_dims := a_dims a; a_get := fun w => conv (a_get a w); a_num := a_num a |}.
 
-(* MultiSliceArray3D: slice[clamp(z, 0, n-1)]->get(x, y, 0); size = (slice0.x, slice0.y, n) *)
+(* MultiSliceArray3D: slice[clamp(z, 0, n-1)]->get(x, y, 0); size = (slice0.x, slice0.y, n);
+   numElements = slice[0]->numElements() * n *)
 Definition multislice (s0 : arr) (rest : list arr) : arr :=
   let n := Z.of_nat (Datatypes.S (length rest)) in
   {| a_dims := mk_vec3 IZ (vec3_x (a_dims s0)) (vec3_y (a_dims s0)) n;
      a_get := fun w =>
        let k := clampz (vec3_z w) 0 (n - 1) in
-       a_get (nth (Z.to_nat k) (s0 :: rest) s0) (mk_vec3 IZ (vec3_x w) (vec3_y w) 0) |}.
+       a_get (nth (Z.to_nat k) (s0 :: rest) s0) (mk_vec3 IZ (vec3_x w) (vec3_y w) 0);
+     a_num := a_num s0 * n |}.
 
-(* Array3D::getValueRange(begin, end): v = [get(begin), get(begin)], then extend over the region.
+(* ---- getValueRange.  A range_t<T> is (lower, upper); the empty range (pos_inf, neg_inf) is None.
    range_t<T>::extend(t): lower = min(lower, t); upper = max(upper, t) *)
-Definition value_range (a : arr) (b e : vec3 IZ) : Z * Z :=
-  fold_left (fun '(lo, hi) c => (Z.min lo (a_get a c), Z.max hi (a_get a c)))
-            (for_each b e) (a_get a b, a_get a b).
+Definition extend (r : option (Z * Z)) (v : Z) : option (Z * Z) :=
+  match r with
+  | None => Some (v, v)
+  | Some (lo, hi) => Some (Z.min lo v, Z.max hi v)
+  end.
+
+(* the repaired Array3D::getValueRange(begin, end): start from the empty range, extend over the region *)
+Definition value_range (a : arr) (b e : vec3 IZ) : option (Z * Z) :=
+  fold_left (fun r c => extend r (a_get a c)) (for_each b e) None.
+
+(* the code as found: range_t<value_t> v = get(begin); then extend over the region *)
+Definition value_range_old (a : arr) (b e : vec3 IZ) : option (Z * Z) :=
+  fold_left (fun r c => extend r (a_get a c)) (for_each b e) (Some (a_get a b, a_get a b)).
+
+(* ---- executable wrappers used by the extracted driver: the generated definitions in the
+   ideal (IZ), machine (MZ) and overflow-checked (OZ) readings, on plain integers *)
+Definition t2 {I} (v : vec2 I) := (vec2_x v, vec2_y v).
+Definition t3 {I} (v : vec3 I) := (vec3_x v, vec3_y v, vec3_z v).
+Definition v3z (x y z : Z) : vec3 IZ := mk_vec3 IZ x y z.
+Definition v2z (x y : Z) : vec2 IZ := mk_vec2 IZ x y.
+
+Section Exec.
+  Variable I : interp.
+  Variable inj : Z -> S I.
+  Definition x_v2 (x y : Z) : vec2 I := mk_vec2 I (inj x) (inj y).
+  Definition x_v3 (x y z : Z) : vec3 I := mk_vec3 I (inj x) (inj y) (inj z).
+  Definition x_total2 dx dy := multidim_index_sequence2_total_indices__ I (multidim_index_sequence2_mk__v2ul I (x_v2 dx dy)).
+  Definition x_total3 dx dy dz := multidim_index_sequence3_total_indices__ I (multidim_index_sequence3_mk__v3ul I (x_v3 dx dy dz)).
+  Definition x_flatten2 dx dy x y :=
+    multidim_index_sequence2_flatten__v2ul I (multidim_index_sequence2_mk__v2ul I (x_v2 dx dy)) (x_v2 x y).
+  Definition x_reshape2 dx dy i :=
+    t2 (multidim_index_sequence2_reshape__ul I (multidim_index_sequence2_mk__v2ul I (x_v2 dx dy)) (inj i)).
+  Definition x_flatten3 dx dy dz x y z :=
+    multidim_index_sequence3_flatten__v3ul I (multidim_index_sequence3_mk__v3ul I (x_v3 dx dy dz)) (x_v3 x y z).
+  Definition x_reshape3 dx dy dz i :=
+    t3 (multidim_index_sequence3_reshape__ul I (multidim_index_sequence3_mk__v3ul I (x_v3 dx dy dz)) (inj i)).
+  Definition x_longProduct dx dy dz := array3D_longProduct__v3i I (x_v3 dx dy dz).
+  Definition x_longIndex dx dy dz x y z := array3D_longIndex__v3i_v3i I (x_v3 x y z) (x_v3 dx dy dz).
+  Definition x_coordsOf dx dy dz i := t3 (array3D_coordsOf__ul_v3i I (inj i) (x_v3 dx dy dz)).
+End Exec.
+
+Definition idZ (z : Z) : Z := z.
+Definition someZ (z : Z) : option Z := Some z.
+
+Definition seq3_begin (dx dy dz : Z) := multidim_index_sequence3_begin__ IZ (multidim_index_sequence3_mk__v3ul IZ (v3z dx dy dz)).
+Definition seq3_end (dx dy dz : Z) := multidim_index_sequence3_end__ IZ (multidim_index_sequence3_mk__v3ul IZ (v3z dx dy dz)).
+Definition seq2_begin (dx dy : Z) := multidim_index_sequence2_begin__ IZ (multidim_index_sequence2_mk__v2ul IZ (v2z dx dy)).
+Definition seq2_end (dx dy : Z) := multidim_index_sequence2_end__ IZ (multidim_index_sequence2_mk__v2ul IZ (v2z dx dy)).
